@@ -11,8 +11,15 @@ Statements are about `Model.Layout.get` / `offsetsMatch` / `checkAll` (the model
 into `Gen.LayoutTables`) and the independent reference calculators `Spec.Layout.hlslSB` /
 `Spec.Layout.metal`.  Every theorem below is at full strength: the only hypotheses are that the element
 type has a reference layout at all (`wf`: the property's grid — half/int/uint/float/double, vectors of
-1–4, 32-bit enums, arrays of ≥ 1 element, non-empty structs, nested to any depth) and, for the
-no-panic / completeness statements, that the two reference sizes fit in `u32`.
+1–4, 32-bit enums, arrays of ≥ 1 element, structs (empty ones included), nested to any depth) and, for the
+"no unknown size" / completeness statements, that the two reference sizes fit in `u32`.
+
+Fix batch 2 (/repo 24ea36f, c062f2e, d99f90e + bdddd35, d25724e): sizes beyond 32 bits are "unknown size" instead
+of a panic (`check_never_panics`), a typed load that still depends on a template parameter is skipped, arrays of
+structured buffers are collected whatever modifiers sit between the array layers (the former witnesses
+`buffer_arrays_not_validated` and, for the shape d99f90e alone still missed, `typedef_buffer_array_not_validated`
+are now the positive `property_uses_collected_partial`), an empty struct has its Metal byte (the former witness
+`empty_struct_unsound` is now covered by `check_sound_full`).
 
 History: on the tree before /repo commit 0414772 the statements `check_sound` and `reported_sizes_true`
 were false (`{struct{float2;float}; float}` accepted with 16 vs 24 bytes, `{half; half2; float}` accepted
@@ -114,8 +121,28 @@ theorem check_total (t : Ty) (hw : wf t = true) (hh : size .hlsl t ≤ u32Max)
     (hm : size .metal t ≤ u32Max) : ∃ r, checkOne t = .ok r :=
   checkOne_total t hw hh hm
 
-/-- without vectors (scalars, enums, arrays and structs of them, to any depth) the two rule sets give
-    the same layout -/
+/-- **No panic on the grid, whatever the sizes** (since /repo 24ea36f; before, `check_total` was all there was:
+    sizes beyond `u32` hit `attempt to multiply with overflow` / `TryFromIntError`).  Every overflow site of
+    `get_type_layout` and `offsets_match` now returns `None` ("unknown size"); the one unchecked
+    `next_multiple_of` left, in `check_layout` itself, cannot overflow because a size is a multiple of its
+    alignment. -/
+theorem check_never_panics (ts : List Ty) (hw : ∀ t ∈ ts, wf t = true) (msg : String) :
+    checkAll ts ≠ .panic msg :=
+  checkFrom_noPanic ts 0 hw msg
+
+/-- non-vacuity: the inputs of the former panics (`float a[4294967295]`, `float a[4294967296]`, a struct that ends
+    beyond 4 GiB, an array of 2^32 empty structs) are in the grid and get "unknown size" -/
+example :
+    wf (.struct (Tys.ofList [.arr (.scalar .Float32) 4294967295])) = true ∧
+    checkAll [.struct (Tys.ofList [.arr (.scalar .Float32) 4294967295])] = .unknown 0 ∧
+    checkAll [.struct (Tys.ofList [.arr (.scalar .Float32) 4294967296])] = .unknown 0 ∧
+    checkAll [.struct (Tys.ofList [.arr (.scalar .Float32) 1073741823, .scalar .Float64])] = .unknown 0 ∧
+    checkAll [.struct (Tys.ofList [.arr (.struct .nil) 4294967296])] = .unknown 0 ∧
+    checkAll [.struct (Tys.ofList [.arr (.scalar .Float32) 1073741823])] = .ok := by
+  decide
+
+/-- without vectors and empty structs (scalars, enums, arrays and non-empty structs of them, to any depth) the two
+    rule sets give the same layout -/
 theorem vector_free_agree (t : Ty) (hv : vectorFree t = true) : Agree t :=
   ⟨(vectorFree_same t hv).2.1, (vectorFree_same t hv).2.2⟩
 
@@ -155,8 +182,10 @@ def rawBufferObjects : List String := ["ByteAddressBuffer", "RWByteAddressBuffer
     the method tables of `get_methods`), not from `layout_checker.rs`: every object type whose element may be a
     structure is a structured buffer (and then matched by `check_layout`) or one of the two kinds the property
     does not name; every object method templated on a type `T` is a load / store of a raw buffer or buffer
-    address and its intrinsic is matched by `check_layout`; nothing else is matched; the loops look below
-    modifiers, de-duplicate by type id and take the single type argument. -/
+    address and its intrinsic is matched by `check_layout`; nothing else is matched; the global loop looks below
+    a modifier, then below every array layer and a modifier after each (since /repo d99f90e + bdddd35); the function loop
+    skips type arguments that depend on a template parameter (since /repo c062f2e); both de-duplicate by type id
+    and take the single type argument. -/
 theorem collection_sites_covered :
     (∀ o ∈ structElementObjects, o ∈ propertyObjects ∨ o ∈ ["ConstantBuffer", "TriangleStream"]) ∧
     (∀ o ∈ propertyObjects, o ∈ checkedObjects ∧ (o, true) ∈ objectTypes ∧ o ∈ structElementObjects) ∧
@@ -164,7 +193,9 @@ theorem collection_sites_covered :
     (∀ o ∈ rawBufferObjects, (o, false) ∈ objectTypes ∧ ∃ t ∈ typedMethods, t.1 = o) ∧
     (∀ i ∈ checkedIntrinsics, ∃ t ∈ typedMethods, t.2.2.1 = i) ∧
     (∀ o ∈ checkedObjects, o ∈ propertyObjects) ∧
-    globalLoopStripsModifier = true ∧ dedupByTypeId = true ∧ fnLoopOneTypeArgument = true := by
+    globalLoopStripsModifier = true ∧ globalLoopStripsArray = true ∧
+    globalPeelOps = [.removeModifier, .whileArrayRemoveModifier] ∧ fnLoopSkipsDependent = true ∧
+    dedupByTypeId = true ∧ fnLoopOneTypeArgument = true := by
   decide
 
 /-- **When validation runs and what it prints.**  `compile` calls `check_layout` exactly when
@@ -179,11 +210,74 @@ theorem diagnostic_pinned :
     fnLocationIsStructDefinition = true := by
   decide
 
-/-- a use of the type `r` that the property names: the element type of a global (RW)StructuredBuffer (below any
-    modifiers), or the type argument of an instantiated typed load / store of a raw buffer or buffer address -/
+/-- the buffer object a global is made of, below `Modifier` and `Array` layers in any order: in the property's
+    words every element of an array of structured buffers is a structured buffer -/
+def bufferElem : GTy → Option (String × TyRef)
+  | .object k (some r) => some (k, r)
+  | .modifier t => bufferElem t
+  | .array t => bufferElem t
+  | _ => none
+
+def isModifier : GTy → Bool
+  | .modifier _ => true
+  | _ => false
+
+/-- no `Modifier` layer directly on a `Modifier` layer: an invariant of the type registry (`combine_modifier` asserts
+    that the type it qualifies is not qualified already) -/
+def unstacked : GTy → Bool
+  | .modifier t => !isModifier t && unstacked t
+  | .array t => unstacked t
+  | _ => true
+
+/-- the loop `while let Array(inner, _) = layer(ty) { ty = remove_modifier(inner); }` reaches the buffer object below
+    any interleaving of `Array` and (unstacked) `Modifier` layers -/
+theorem whileArray_bufferElem {k : String} {r : TyRef} : ∀ t : GTy, unstacked t = true → isModifier t = false →
+    bufferElem t = some (k, r) → whileArray t = .object k (some r)
+  | .object k' (some r'), _, _, h => by
+    simp only [bufferElem, Option.some.injEq, Prod.mk.injEq] at h
+    obtain ⟨rfl, rfl⟩ := h; rfl
+  | .object _ none, _, _, h => by simp [bufferElem] at h
+  | .other, _, _, h => by simp [bufferElem] at h
+  | .modifier _, _, hm, _ => by simp [isModifier] at hm
+  | .array (.modifier v), hu, _, h => by
+    simp only [unstacked, Bool.and_eq_true, Bool.not_eq_true'] at hu
+    simp only [bufferElem] at h
+    simp only [whileArray]
+    exact whileArray_bufferElem v hu.2 hu.1 h
+  | .array (.object a b), _, _, h => by
+    simp only [bufferElem] at h
+    simp only [whileArray]
+    exact whileArray_bufferElem (.object a b) rfl rfl h
+  | .array (.array u), hu, _, h => by
+    simp only [unstacked] at hu
+    simp only [bufferElem] at h
+    have : whileArray (.array (.array u)) = whileArray (.array u) := by simp only [whileArray]
+    rw [this]
+    exact whileArray_bufferElem (.array u) (by simpa only [unstacked] using hu) rfl (by simpa only [bufferElem] using h)
+  | .array .other, _, _, h => by simp [bufferElem] at h
+
+/-- the global loop's peeling statements reach the buffer object of every global that is a structured buffer or an
+    array of structured buffers, however `Array` and `Modifier` layers interleave (since /repo bdddd35) -/
+theorem peel_bufferElem {k : String} {r : TyRef} {t : GTy} (hu : unstacked t = true)
+    (h : bufferElem t = some (k, r)) : peel globalPeelOps t = .object k (some r) := by
+  show whileArray (removeModifier t) = _
+  cases t with
+  | modifier v =>
+    simp only [unstacked, Bool.and_eq_true, Bool.not_eq_true'] at hu
+    simp only [bufferElem] at h
+    exact whileArray_bufferElem v hu.2 hu.1 h
+  | object a b => exact whileArray_bufferElem (.object a b) hu rfl h
+  | array u => exact whileArray_bufferElem (.array u) hu rfl h
+  | other => simp [bufferElem] at h
+
+/-- a use of the type `r` that the property names: the element type of a global (RW)StructuredBuffer or of a
+    global array of them — any dimensions, typedef'd or not, `Modifier` layers anywhere between (`bufferElem`; the
+    registry's invariant `unstacked`) — or the type argument of an instantiated typed load / store of a raw buffer or
+    buffer address.  *Narrower than the property's words* in one way: a buffer that is a member of a global struct is
+    not expressible (`GTy.other`; it is not collected: known finding `accepted/site-sbmem`). -/
 inductive PropertyUse (m : Module) (r : TyRef) : Prop
   | buffer (g : Global) (hg : g ∈ m.globals) (k : String) (hk : k ∈ propertyObjects)
-      (h : removeModifier g.ty = .object k (some r))
+      (h : bufferElem g.ty = some (k, r)) (hs : unstacked g.ty = true)
   | access (f : Fn) (hf : f ∈ m.fns) (t : String × String × String × Nat) (ht : t ∈ typedMethods)
       (hi : f.intrinsic = some t.2.2.1) (ha : f.template = some [.type r])
 
@@ -195,36 +289,54 @@ def Matched (m : Module) (r : TyRef) : Prop :=
 def Consistent (m : Module) : Prop :=
   ∀ r r', Matched m r → Matched m r' → r.id = r'.id → r.ty = r'.ty
 
-theorem propertyUse_matched (m : Module) (r : TyRef) (h : PropertyUse m r) : Matched m r := by
+/-- a type of the grid does not depend on a template parameter -/
+theorem wf_not_dependent : ∀ t : Ty, wf t = true → isDependent t = false
+  | .scalar _, _ => rfl
+  | .vec _ _, _ => rfl
+  | .enum _, _ => rfl
+  | .struct _, _ => rfl
+  | .other _, h => by simp [wf] at h
+  | .arr t n, h => by
+    simp only [wf, Bool.and_eq_true] at h
+    simp only [isDependent]
+    exact wf_not_dependent t h.2
+
+theorem propertyUse_matched (m : Module) (r : TyRef) (h : PropertyUse m r) (hd : isDependent r.ty = false) :
+    Matched m r := by
   cases h with
-  | buffer g hg k hk h =>
-    refine Or.inl ⟨g, hg, k, h, ?_⟩
+  | buffer g hg k hk h hs =>
+    refine Or.inl ⟨g, hg, k, peel_bufferElem hs h, ?_⟩
     have := (collection_sites_covered.2.1 k hk).1
     simpa using this
   | access f hf t ht hi ha =>
-    refine Or.inr ⟨f, hf, t.2.2.1, hi, ?_, ha⟩
+    refine Or.inr ⟨f, hf, t.2.2.1, hi, ?_, ha, by simp [hd]⟩
     have := (collection_sites_covered.2.2.1 t ht).2
     simpa using this
 
-/-- **Every use the property names is collected**: its type id is among `types_to_check`. -/
-theorem property_uses_collected (m : Module) (l : List Entry) (h : collect m = .ok l) (r : TyRef)
-    (hu : PropertyUse m r) : ∃ e ∈ l, e.ref.id = r.id := by
-  rcases propertyUse_matched m r hu with ⟨g, hg, hh⟩ | ⟨f, hf, hh⟩
+/-- **Every use the property names is collected** (partial: see `PropertyUse` for the one class of use that is
+    missing): the type id of a concrete type (one that does not depend on a template parameter — a load inside a
+    template is a use only once the template is instantiated) is among `types_to_check`.  Since /repo d99f90e +
+    bdddd35 this includes the element type of every array of structured buffers. -/
+theorem property_uses_collected_partial (m : Module) (l : List Entry) (h : collect m = .ok l) (r : TyRef)
+    (hu : PropertyUse m r) (hd : isDependent r.ty = false) : ∃ e ∈ l, e.ref.id = r.id := by
+  rcases propertyUse_matched m r hu hd with ⟨g, hg, hh⟩ | ⟨f, hf, hh⟩
   · exact collect_global m l h g hg r hh
   · exact collect_fn m l h f hf r hh
 
-/-- **Soundness of `check_layout` as a whole.**  If it accepts a module, every structure used as the element
-    type of a structured buffer or of a typed raw-buffer / buffer-address load or store has the same total size
-    and the same byte offset of every field, recursively, under both reference calculators. -/
-theorem check_layout_sound (m : Module) (hc : Consistent m) (h : checkLayout m = .ok) (r : TyRef)
+/-- **Soundness of `check_layout` as a whole** (partial only through `PropertyUse`).  If it accepts a module,
+    every structure used as the element type of a structured buffer (or of an array of structured buffers) or of
+    a typed raw-buffer / buffer-address load or store has the same total size and the same byte offset of every
+    field, recursively, under both reference calculators. -/
+theorem check_layout_sound_partial (m : Module) (hc : Consistent m) (h : checkLayout m = .ok) (r : TyRef)
     (hu : PropertyUse m r) (hw : wf r.ty = true) :
     ∃ rh rm, hlslSB r.ty = some rh ∧ metal r.ty = some rm ∧ rh.size = rm.size ∧ rh.fields = rm.fields := by
   unfold checkLayout at h
   split at h
   · rename_i l hl
-    obtain ⟨e, he, hid⟩ := property_uses_collected m l hl r hu
+    have hd := wf_not_dependent r.ty hw
+    obtain ⟨e, he, hid⟩ := property_uses_collected_partial m l hl r hu hd
     have hm : Matched m e.ref := collect_origin m l hl e he
-    have hty : e.ref.ty = r.ty := hc e.ref r hm (propertyUse_matched m r hu) hid
+    have hty : e.ref.ty = r.ty := hc e.ref r hm (propertyUse_matched m r hu hd) hid
     exact check_sound _ h r.ty (by rw [← hty]; exact List.mem_map.2 ⟨e, he, rfl⟩) hw
   · cases h
   · cases h
@@ -256,13 +368,34 @@ theorem check_layout_reports_true_sizes (m : Module) (i : Nat) (lh lm : Layout)
 private def sF : Ty := .struct (Tys.ofList [.scalar .Float32, .vec .Float32 2])
 private def sG : Ty := .struct (Tys.ofList [.scalar .Float32, .scalar .Float32])
 
-/-- **The collection is incomplete (negation witness).**  A global that is an *array* of structured buffers
-    is not looked at: the module is accepted although its element structure is 12 bytes under HLSL packing and
-    16 under Metal.  (Replayed on the real compiler by `C19.prog vk:np:0 {f f2} sbarr@0`; known finding
-    `accepted/site-sbarr`.) -/
-theorem buffer_arrays_not_validated :
-    checkLayout ⟨[⟨.array (.object "StructuredBuffer" (some ⟨0, sF⟩)), "g"⟩], []⟩ = .ok ∧
+/-- the former witnesses turned positive.  `buffer_arrays_not_validated` (an array of structured buffers was not
+    looked at; repaired by /repo d99f90e) and `typedef_buffer_array_not_validated` (what d99f90e left:
+    `typedef StructuredBuffer<S> A[2]; A g[3];` = `Array(Modifier(const, Array(Object)))`; repaired by /repo bdddd35):
+    arrays of structured buffers — as the model saw them then, and as the type checker really builds them
+    (`Array(Modifier(const, Object))`) —, of one and two dimensions, typedef'd arrays with and without further
+    dimensions and modifiers between all layers are rejected with the true sizes (12 vs 16 bytes) -/
+example :
+    checkLayout ⟨[⟨.array (.object "StructuredBuffer" (some ⟨0, sF⟩)), "g"⟩], []⟩ = .mismatch 0 ⟨12, 4⟩ ⟨16, 8⟩ ∧
+    checkLayout ⟨[⟨.array (.modifier (.object "StructuredBuffer" (some ⟨0, sF⟩))), "g"⟩], []⟩ = .mismatch 0 ⟨12, 4⟩ ⟨16, 8⟩ ∧
+    checkLayout ⟨[⟨.array (.array (.modifier (.object "RWStructuredBuffer" (some ⟨0, sF⟩)))), "g"⟩], []⟩
+      = .mismatch 0 ⟨12, 4⟩ ⟨16, 8⟩ ∧
+    checkLayout ⟨[⟨.modifier (.array (.object "StructuredBuffer" (some ⟨0, sF⟩))), "g"⟩], []⟩ = .mismatch 0 ⟨12, 4⟩ ⟨16, 8⟩ ∧
+    checkLayout ⟨[⟨.array (.modifier (.array (.object "StructuredBuffer" (some ⟨0, sF⟩)))), "g"⟩], []⟩
+      = .mismatch 0 ⟨12, 4⟩ ⟨16, 8⟩ ∧
+    checkLayout ⟨[⟨.array (.modifier (.array (.modifier (.array (.object "StructuredBuffer" (some ⟨0, sF⟩)))))), "g"⟩], []⟩
+      = .mismatch 0 ⟨12, 4⟩ ⟨16, 8⟩ ∧
+    unstacked (.array (.modifier (.array (.modifier (.array (.object "StructuredBuffer" (some ⟨0, sF⟩))))))) = true ∧
+    (bufferElem (.array (.modifier (.array (.object "StructuredBuffer" (some ⟨0, sF⟩)))))).map
+      (fun p => (p.1, p.2.id)) = some ("StructuredBuffer", 0) ∧
     wf sF = true ∧ ¬ Agree sF := by
+  decide
+
+/-- a typed load whose type argument still depends on a template parameter (`T`, `T[2]`) is skipped, wherever it
+    stands; the first concrete failure is still reported -/
+example :
+    checkLayout ⟨[], [⟨some "ByteAddressBufferLoadT", some [.type ⟨7, .other .TemplateParam⟩]⟩]⟩ = .ok ∧
+    checkLayout ⟨[], [⟨some "BufferAddressLoad", some [.type ⟨7, .arr (.other .TemplateParam) 2⟩]⟩,
+      ⟨some "RWBufferAddressStore", some [.type ⟨0, sF⟩]⟩]⟩ = .mismatch 0 ⟨12, 4⟩ ⟨16, 8⟩ := by
   decide
 
 /-- non-vacuity: the same structure behind a plain structured buffer, behind modifiers, or as the argument of a
@@ -279,20 +412,27 @@ example :
         = .mismatch 1 ⟨12, 4⟩ ⟨16, 8⟩ := by
   decide
 
-/-- non-vacuity of `check_layout_sound`: an accepted module with consistent type ids and a use the property names -/
+/-- non-vacuity of `check_layout_sound_partial`: an accepted module with consistent type ids and a use the property
+    names (an array of structured buffers) -/
 example :
-    Consistent ⟨[⟨.object "StructuredBuffer" (some ⟨1, sG⟩), "g"⟩], [⟨some "ByteAddressBufferLoadT", some [.type ⟨1, sG⟩]⟩]⟩ ∧
-    checkLayout ⟨[⟨.object "StructuredBuffer" (some ⟨1, sG⟩), "g"⟩], [⟨some "ByteAddressBufferLoadT", some [.type ⟨1, sG⟩]⟩]⟩ = .ok ∧
-    PropertyUse ⟨[⟨.object "StructuredBuffer" (some ⟨1, sG⟩), "g"⟩], [⟨some "ByteAddressBufferLoadT", some [.type ⟨1, sG⟩]⟩]⟩ ⟨1, sG⟩ ∧
+    Consistent ⟨[⟨.array (.modifier (.object "StructuredBuffer" (some ⟨1, sG⟩))), "g"⟩],
+      [⟨some "ByteAddressBufferLoadT", some [.type ⟨1, sG⟩]⟩]⟩ ∧
+    checkLayout ⟨[⟨.array (.modifier (.object "StructuredBuffer" (some ⟨1, sG⟩))), "g"⟩],
+      [⟨some "ByteAddressBufferLoadT", some [.type ⟨1, sG⟩]⟩]⟩ = .ok ∧
+    PropertyUse ⟨[⟨.array (.modifier (.object "StructuredBuffer" (some ⟨1, sG⟩))), "g"⟩],
+      [⟨some "ByteAddressBufferLoadT", some [.type ⟨1, sG⟩]⟩]⟩ ⟨1, sG⟩ ∧
     wf sG = true := by
   refine ⟨?_, by decide, ?_, by decide⟩
-  · have key : ∀ x : TyRef, Matched ⟨[⟨.object "StructuredBuffer" (some ⟨1, sG⟩), "g"⟩],
+  · have key : ∀ x : TyRef, Matched ⟨[⟨.array (.modifier (.object "StructuredBuffer" (some ⟨1, sG⟩))), "g"⟩],
         [⟨some "ByteAddressBufferLoadT", some [.type ⟨1, sG⟩]⟩]⟩ x → x = ⟨1, sG⟩ := by
       intro x hx
-      rcases hx with ⟨g, hg, k, hk, _⟩ | ⟨f, hf, i, _, _, ht⟩
+      rcases hx with ⟨g, hg, k, hk, _⟩ | ⟨f, hf, i, _, _, ht, _⟩
       · simp only [List.mem_singleton] at hg
         subst hg
-        simp only [removeModifier, GTy.object.injEq, Option.some.injEq] at hk
+        have hp : peel globalPeelOps (.array (.modifier (.object "StructuredBuffer" (some ⟨1, sG⟩)))) =
+            .object "StructuredBuffer" (some ⟨1, sG⟩) := rfl
+        rw [hp] at hk
+        simp only [GTy.object.injEq, Option.some.injEq] at hk
         exact hk.2.symm
       · simp only [List.mem_singleton] at hf
         subst hf
@@ -300,7 +440,7 @@ example :
         exact ht.symm
     intro r r' h h' _
     rw [key r h, key r' h']
-  · exact .buffer _ (List.mem_singleton.2 rfl) "StructuredBuffer" (by decide) rfl
+  · exact .buffer _ (List.mem_singleton.2 rfl) "StructuredBuffer" (by decide) rfl rfl
 
 end collection
 
@@ -310,7 +450,7 @@ section full
 open RsslVerif.Spec.LayoutFull RsslVerif.Lemmas.LayoutFull
 
 /-- **Soundness over the full universe.**  If `check_layout` accepts, every listed type for which both rule
-    sets define a layout (`xwf`: also `bool`, `boolN`, `half`/`float` matrices) has the same total size and the
+    sets define a layout (`xwf`: also `bool`, `boolN`, `half`/`float` matrices, empty structs) has the same total size and the
     same byte offset of every field, recursively, under the full reference calculators. -/
 theorem check_sound_full (ts : List XTy) (h : checkAll (ts.map erase) = .ok) (t : XTy) (ht : t ∈ ts)
     (hw : xwf t = true) :
@@ -354,9 +494,29 @@ theorem reported_sizes_true_full (ts : List XTy) (i : Nat) (lh lm : Layout)
       · simp only [xhlslSB, xref, hw, if_true, (hs .hlsl).1, (hs .hlsl).2]
       · simp only [xmetal, xref, hw, if_true, (hs .metal).1, (hs .metal).2]
 
+/-- **No panic over the full universe**: also with `bool`, matrices and empty structs inside. -/
+theorem check_never_panics_full (ts : List XTy) (hw : ∀ t ∈ ts, xwf t = true) (msg : String) :
+    checkAll (ts.map erase) ≠ .panic msg := by
+  have key : ∀ (us : List XTy) (i : Nat), (∀ t ∈ us, xwf t = true) → checkFrom i (us.map erase) ≠ .panic msg := by
+    intro us
+    induction us with
+    | nil => intro i _; simp [checkFrom]
+    | cons u us ih =>
+      intro i hu h
+      simp only [List.map_cons] at h
+      unfold checkFrom at h
+      split at h
+      · cases h
+      · rename_i m' hc
+        cases h
+        exact checkOne_noPanic_full u (hu u (List.mem_cons_self ..)) _ hc
+      · cases h
+      · exact ih (i + 1) (fun t ht => hu t (List.mem_cons_of_mem _ ht)) h
+  exact key ts 0 hw
+
 /-- **What `get_type_layout` cannot handle is never silently accepted**: a type that mentions a `bool` or a
-    matrix anywhere is neither accepted nor reported with sizes (the verdict is "unknown size", or a panic of an
-    earlier member). -/
+    matrix anywhere is neither accepted nor reported with sizes; when both rule sets have a layout for it the
+    verdict is exactly "unknown size" (`no_layout_is_unknown`). -/
 theorem no_layout_no_verdict (t : XTy) (hp : plain t = false) :
     checkAll [erase t] ≠ .ok ∧ ∀ i lh lm, checkAll [erase t] ≠ .mismatch i lh lm := by
   have hn := checkOne_opaque t hp
@@ -371,6 +531,12 @@ theorem no_layout_no_verdict (t : XTy) (hp : plain t = false) :
       | succ k => simp at hu
     subst this
     exact hn _ hc
+
+/-- a type with a `bool` or a matrix in it for which both rule sets define a layout gets "unknown size" (since
+    /repo 24ea36f no earlier member can panic first) -/
+theorem no_layout_is_unknown (t : XTy) (hw : xwf t = true) (hp : plain t = false) :
+    checkAll [erase t] = .unknown 0 := by
+  simp only [checkAll, checkFrom, checkOne_opaque_unknown t hw hp]
 
 /-- **Completeness, partial.**  Types without `bool` and matrices that have the same total size and the same
     byte offset of every field under both rule sets (sizes ≤ u32::MAX) are all accepted.
@@ -405,14 +571,21 @@ theorem complete_fails_beyond_plain :
       checkAll [erase (XS [.scalar .Bool, .scalar .Int32])] = .unknown 0) := by
   decide
 
-/-- **Empty structs (negation witness).**  `struct E {}; struct S { E e; float a; }` is accepted, but the
-    member `a` is at offset 0 (size 4) under HLSL packing and at offset 4 (size 8) in Metal, where an empty struct
-    occupies one byte.  (Replayed on the real compiler by `C19.prog vk:np:0 {{} f} sb@0`; known finding
-    `accepted/empty-struct`.)  This is why `xwf` excludes empty structs. -/
-theorem empty_struct_unsound :
-    checkAll [erase (XS [XS [], xf])] = .ok ∧
+/-- the former negation witness `empty_struct_unsound` turned positive (since /repo d25724e an empty struct has its
+    Metal byte): `struct E {}; struct S { E e; float a; }` — `a` at offset 0 (size 4) under HLSL packing, at offset 4
+    (size 8) in Metal — is inside `xwf` and rejected with exactly these sizes; `{half; E; float}` has the same
+    offsets [0, 2, 4] and size 8 under both rule sets and is accepted; an empty struct on its own is 0 vs 1 byte. -/
+example :
+    xwf (XS [XS [], xf]) = true ∧
     xsize .hlsl (XS [XS [], xf]) = 4 ∧ xsize .metal (XS [XS [], xf]) = 8 ∧
-    xfieldsAt .hlsl (XS [XS [], xf]) 0 = [0, 0] ∧ xfieldsAt .metal (XS [XS [], xf]) 0 = [0, 4] := by
+    xfieldsAt .hlsl (XS [XS [], xf]) 0 = [0, 0] ∧ xfieldsAt .metal (XS [XS [], xf]) 0 = [0, 4] ∧
+    checkAll [erase (XS [XS [], xf])] = .mismatch 0 ⟨4, 4⟩ ⟨8, 4⟩ ∧
+    xwf (XS [.scalar .Float16, XS [], xf]) = true ∧
+    xfieldsAt .hlsl (XS [.scalar .Float16, XS [], xf]) 0 = [0, 2, 4] ∧
+    xfieldsAt .metal (XS [.scalar .Float16, XS [], xf]) 0 = [0, 2, 4] ∧
+    checkAll [erase (XS [.scalar .Float16, XS [], xf])] = .ok ∧
+    checkAll [erase (XS [])] = .mismatch 0 ⟨0, 1⟩ ⟨1, 1⟩ ∧
+    checkAll [erase (XS [.scalar .Float16, .arr (XS []) 2, xf])] = .mismatch 0 ⟨8, 4⟩ ⟨8, 4⟩ := by
   decide
 
 /-- non-vacuity: types of the widened universe that satisfy `xwf`; a `bool`/matrix-free one among them is
